@@ -27,6 +27,9 @@ Var(n) == [t |-> "var", name |-> n]
 Lit(v) == [t |-> "lit", v |-> v]
 CN(i) == <<99, 48 + i>>                      \* c1 c2 c3
 Mark(i) == <<T(<<64 + i>>)>>                 \* A B C D
+\* a clause whose body is empty (emp: which one, 0/absent = none) still takes part in the selection
+Emp(x) == IF "emp" \in DOMAIN x THEN x.emp ELSE 0
+MarkE(x, i) == IF Emp(x) = i THEN <<>> ELSE Mark(i)
 Failing == [t |-> "filter", e |-> Lit(IntV(1)), name |-> "divided_by", args |-> <<Lit(IntV(0))>>]
 ElseC == [t |-> "else"]
 
@@ -38,6 +41,8 @@ Cases ==
   [g : {"chain"}, n : {1}, v1 : 1..NCU, v2 : {1}, v3 : {1}, els : BOOLEAN]
   \cup [g : {"chain"}, n : {2}, v1 : 1..NCU, v2 : 1..NCU, v3 : {1}, els : BOOLEAN]
   \cup [g : {"chain"}, n : {3}, v1 : 1..NCU, v2 : 1..NCU, v3 : 1..NCU, els : BOOLEAN]
+  \cup [g : {"chain"}, n : {2}, v1 : {1, 3, 4, 5}, v2 : {1, 3, 4, 5}, v3 : {1}, els : {TRUE}, emp : {1, 2, 4}]
+  \cup [g : {"case"}, s : 1..Len(SU), w1 : 1..Len(WhenLists), w2 : 1..Len(WhenLists), els : {TRUE}, emp : {1, 2, 4}]
   \cup [g : {"dual"}, v1 : 1..NCU]
   \cup [g : {"later"}, pos : 1..3, sel : 0..3]         \* failing condition at pos; first truthy at sel (0: none)
   \cup [g : {"case"}, s : 1..Len(SU), w1 : 1..Len(WhenLists), w2 : 1..Len(WhenLists), els : BOOLEAN]
@@ -45,8 +50,8 @@ Cases ==
   \* a complete nested block inside a later clause, followed by more content of that clause
   \cup [g : {"tail"}, v1 : {1, 3, 4}, v2 : {2, 3, 5}, inner : {"if", "unless", "for", "case"}, outer : {"if", "case"}]
 
-Branches(x) == [i \in 1..x.n |-> [c |-> Var(CN(i)), body |-> Mark(i)]]
-               \o (IF x.els THEN <<[c |-> ElseC, body |-> Mark(4)]>> ELSE <<>>)
+Branches(x) == [i \in 1..x.n |-> [c |-> Var(CN(i)), body |-> MarkE(x, i)]]
+               \o (IF x.els THEN <<[c |-> ElseC, body |-> MarkE(x, 4)]>> ELSE <<>>)
 
 ProgOf(x) ==
   CASE x.g = "chain" -> << [t |-> "if", branches |-> Branches(x)] >>
@@ -59,9 +64,9 @@ ProgOf(x) ==
                                       \o <<[c |-> ElseC, body |-> Mark(4)]>>] >>
     [] x.g = "case" ->
          << [t |-> "case", e |-> Var(<<115>>), pre |-> <<>>,
-             whens |-> << [vals |-> [i \in 1..Len(WhenLists[x.w1]) |-> Lit(SU[WhenLists[x.w1][i]])], body |-> Mark(1)],
-                          [vals |-> [i \in 1..Len(WhenLists[x.w2]) |-> Lit(SU[WhenLists[x.w2][i]])], body |-> Mark(2)] >>
-                          \o (IF x.els THEN <<[else |-> TRUE, vals |-> <<>>, body |-> Mark(4)]>> ELSE <<>>)] >>
+             whens |-> << [vals |-> [i \in 1..Len(WhenLists[x.w1]) |-> Lit(SU[WhenLists[x.w1][i]])], body |-> MarkE(x, 1)],
+                          [vals |-> [i \in 1..Len(WhenLists[x.w2]) |-> Lit(SU[WhenLists[x.w2][i]])], body |-> MarkE(x, 2)] >>
+                          \o (IF x.els THEN <<[else |-> TRUE, vals |-> <<>>, body |-> MarkE(x, 4)]>> ELSE <<>>)] >>
     [] x.g = "tail" ->
          LET innerNode ==
                CASE x.inner = "if" -> [t |-> "if", branches |-> <<[c |-> Var(CN(2)), body |-> Mark(3)]>>]
@@ -91,13 +96,14 @@ EnvOf2(x) ==
 Tr(i) == i \notin FalsyIdx
 FirstTrue(vs) == IF \E i \in 1..Len(vs) : Tr(vs[i]) THEN CHOOSE i \in 1..Len(vs) : Tr(vs[i]) /\ \A j \in 1..(i - 1) : ~Tr(vs[j]) ELSE 0
 M(i) == <<64 + i>>
+ME(x, i) == IF Emp(x) = i THEN <<>> ELSE M(i)
 \* does when-list w match subject s (by ==)?
 WMatch(w, s) == \E i \in 1..Len(WhenLists[w]) : Eq3(SU[s], SU[WhenLists[w][i]]) = "t"
 
 Decl(x) ==   \* [status, out]
   CASE x.g = "chain" ->
          LET vs == SubSeq(<<x.v1, x.v2, x.v3>>, 1, x.n) f == FirstTrue(vs)
-         IN  [status |-> "ok", out |-> IF f > 0 THEN M(f) ELSE IF x.els THEN M(4) ELSE <<>>]
+         IN  [status |-> "ok", out |-> IF f > 0 THEN ME(x, f) ELSE IF x.els THEN ME(x, 4) ELSE <<>>]
     [] x.g = "dual" -> [status |-> "ok", out |-> IF Tr(x.v1) THEN <<65, 124, 65>> ELSE <<66, 124, 66>>]
     [] x.g = "later" ->
          \* conditions are evaluated in order until one is truthy: the failing one is reached
@@ -105,8 +111,8 @@ Decl(x) ==   \* [status, out]
          IF x.sel # 0 /\ x.sel < x.pos THEN [status |-> "ok", out |-> M(x.sel)]
          ELSE [status |-> "error", out |-> <<>>]
     [] x.g = "case" ->
-         [status |-> "ok", out |-> IF WMatch(x.w1, x.s) THEN M(1) ELSE IF WMatch(x.w2, x.s) THEN M(2)
-                                   ELSE IF x.els THEN M(4) ELSE <<>>]
+         [status |-> "ok", out |-> IF WMatch(x.w1, x.s) THEN ME(x, 1) ELSE IF WMatch(x.w2, x.s) THEN ME(x, 2)
+                                   ELSE IF x.els THEN ME(x, 4) ELSE <<>>]
     [] x.g = "tail" ->
          LET first == IF x.outer = "if" THEN Tr(x.v1) ELSE x.v1 = 3           \* case: subject == true
              innerOut == CASE x.inner = "if" -> IF Tr(x.v2) THEN M(3) ELSE <<>>
@@ -134,10 +140,10 @@ IfUnlessDual == c.g = "dual" /\ st.status = "ok" =>
                   LET o == st.sink.acc IN Len(o) = 3 /\ o[1] = o[3]
 
 IdOf(x) ==
-  CASE x.g = "chain" -> "chain-" \o ToString(x.n) \o "-" \o ToString(x.v1) \o "-" \o ToString(x.v2) \o "-" \o ToString(x.v3) \o "-" \o ToString(x.els)
+  CASE x.g = "chain" -> "chain-" \o ToString(x.n) \o "-" \o ToString(x.v1) \o "-" \o ToString(x.v2) \o "-" \o ToString(x.v3) \o "-" \o ToString(x.els) \o "-e" \o ToString(Emp(x))
     [] x.g = "dual" -> "dual-" \o ToString(x.v1)
     [] x.g = "later" -> "later-" \o ToString(x.pos) \o "-" \o ToString(x.sel)
-    [] x.g = "case" -> "case-" \o ToString(x.s) \o "-" \o ToString(x.w1) \o "-" \o ToString(x.w2) \o "-" \o ToString(x.els)
+    [] x.g = "case" -> "case-" \o ToString(x.s) \o "-" \o ToString(x.w1) \o "-" \o ToString(x.w2) \o "-" \o ToString(x.els) \o "-e" \o ToString(Emp(x))
     [] x.g = "tail" -> "tail-" \o ToString(x.v1) \o "-" \o ToString(x.v2) \o "-" \o x.inner \o "-" \o x.outer
     [] x.g = "nest" -> "nest-" \o ToString(x.v1) \o "-" \o ToString(x.v2)
 EmitCase == st.status # "run" =>
